@@ -7,6 +7,7 @@ package rxwindow
 
 import (
 	"fmt"
+	"sync/atomic"
 	"time"
 
 	"github.com/wmnsk/go-pfcp/ie"
@@ -448,7 +449,23 @@ func served(st *stack.Stack) {
 	}
 }
 
+// RunLost arranges the scenario (a few attempts: on a busy machine the loop may serve the first copy only after the write
+// failure has been switched off again, and then nothing was lost) and checks it.
 func RunLost(c LostCase) (v *vcore.Violation) {
+	for attempt := 0; attempt < 6; attempt++ {
+		var arranged bool
+		if v, arranged = runLost(c); v != nil || arranged {
+			return v
+		}
+		NotArranged.Add(1)
+	}
+	return nil
+}
+
+// NotArranged counts attempts in which the answer got through after all.
+var NotArranged atomic.Int64
+
+func runLost(c LostCase) (v *vcore.Violation, arranged bool) {
 	d := stack.NewModelDriver()
 	st, err := stack.New(stack.Opts{Driver: d, Nodes: 1})
 	if err != nil {
@@ -467,7 +484,7 @@ func RunLost(c LostCase) (v *vcore.Violation) {
 	far := []stack.RuleOp{{Verb: "create", Kind: "FAR", ID: 1, Action: 2, HasAction: true}}
 	for _, op := range []stack.Op{{Kind: "assoc", Peer: 0, Node: 0, Sess: -1, Seq: 0x4001}, {Kind: "est", Peer: 0, Node: 0, Sess: -1, CP: 0x41, Seq: 0x4002, Rules: far}} {
 		if o := r.Step(op); o.Dead != nil || o.Stuck {
-			return vcore.Violatef("prefix", "prefix failed")
+			return vcore.Violatef("prefix", "prefix failed"), true
 		}
 	}
 	var op stack.Op
@@ -491,43 +508,49 @@ func RunLost(c LostCase) (v *vcore.Violation) {
 	if err := st.Send(0, b); err != nil {
 		panic(err)
 	}
+	if c.Kind != "hb" {
+		// the request reaches the data plane: wait for that before asking whether the loop is done with it
+		for t1 := time.Now(); time.Since(t1) < 5*time.Second && d.NCalls() == 0; {
+			time.Sleep(50 * time.Microsecond)
+		}
+	}
 	served(st)
 	st.Srv.VerifFailSends(false)
-	first := d.TakeCalls()
 	if err := st.Barrier(); err != nil {
-		return vcore.Violatef("stuck", "%v", err)
+		return vcore.Violatef("stuck", "%v", err), true
 	}
+	first := d.TakeCalls()
 	if got := st.Sock(0).Drain(); len(got) != 0 {
-		return vcore.Violatef("harness", "a datagram arrived although the server's socket refused writes")
+		return nil, false // the loop served the request only after the socket worked again: nothing was lost, nothing to check
 	}
 	if c.Kind != "hb" && len(first) == 0 {
-		return vcore.Violatef("first-copy-not-executed", "%s request: no data-plane call although only the sending of its answer failed", c.Kind)
+		return vcore.Violatef("first-copy-not-executed", "%s request: no data-plane call although only the sending of its answer failed", c.Kind), true
 	}
 	var answer []byte
 	for i := 0; i < max(c.Dups, 1); i++ {
 		o := r.SendRaw(0, b)
 		if o.Dead != nil {
-			return vcore.Violatef(o.Dead.Key, "retransmission %d: UPF fatal exit", i)
+			return vcore.Violatef(o.Dead.Key, "retransmission %d: UPF fatal exit", i), true
 		}
 		if len(o.Calls) != 0 {
-			return vcore.Violatef("dup-executed", "retransmission %d of a %s request whose answer could not be sent caused data-plane calls %s", i, c.Kind, vcore.JSON(o.Calls))
+			return vcore.Violatef("dup-executed", "retransmission %d of a %s request whose answer could not be sent caused data-plane calls %s", i, c.Kind, vcore.JSON(o.Calls)), true
 		}
 		got := o.Rx[0]
 		if len(got) != 1 {
 			return vcore.Violatef("lost-answer-never-sent", "the answer to a %s request could not be sent (the socket refused one write); retransmission %d of the request, sent when the socket worked again, got %d datagram(s): the request was executed (%d data-plane calls) and is never answered",
-				c.Kind, i, len(got), len(first))
+				c.Kind, i, len(got), len(first)), true
 		}
 		m, perr := message.Parse(got[0].B)
 		if perr != nil || m.MessageType() != wantType || m.Sequence() != 0x4100 {
-			return vcore.Violatef("dup-answer-differs", "retransmission %d of the %s request answered %x", i, c.Kind, got[0].B)
+			return vcore.Violatef("dup-answer-differs", "retransmission %d of the %s request answered %x", i, c.Kind, got[0].B), true
 		}
 		if answer == nil {
 			answer = got[0].B
 		} else if string(answer) != string(got[0].B) {
-			return vcore.Violatef("dup-answer-differs", "retransmission %d answered %x, the one before %x", i, got[0].B, answer)
+			return vcore.Violatef("dup-answer-differs", "retransmission %d answered %x, the one before %x", i, got[0].B, answer), true
 		}
 	}
-	return nil
+	return nil, true
 }
 
 // LostPart runs the scenario for every kind of request.
